@@ -274,3 +274,56 @@ package bug
 //@   props C10
 //@   modifies nothing
 //@   ensures result == (string(snapshot.Labels[i]) < string(snapshot.Labels[j]))
+
+// The validation gate of the bug operations (C16: whatever text the tracker holds, the imported operations are
+// valid; C07: hostile data is rejected; C10: what a valid sequence may contain). An operation Validate accepts has
+// a well-formed base (author, type, nonce), titles and labels that are non-empty single lines without control
+// characters, messages without control characters other than tab, line feed and carriage return (the
+// recursive specifications text.oneLineFrom / text.safeFrom over all runes), a documented status, a
+// well-formed target id, and - for a label change - at least one label.
+//@ func Label.Validate
+//@   props C16 C07 C10
+//@   nopanic
+//@   modifies nothing
+//@   ensures [accepted-label-is-a-clean-line] result == nil ==> !text.Empty(string(l)) && text.oneLineFrom(string(l), 0)
+//@ func (*CreateOperation).Validate
+//@   props C16 C07 C10
+//@   requires op != nil
+//@   modifies dag.baseChecked, dag.baseCheckedType, dag.baseCheckedOK
+//@   opt trusted_frame
+//@   ensures [accepted-create-is-well-formed] result == nil ==> dag.baseChecked == op && dag.baseCheckedType == CreateOp && dag.baseCheckedOK && !text.Empty(op.Title) && text.oneLineFrom(op.Title, 0) && text.safeFrom(op.Message, 0)
+//@ func (*AddCommentOperation).Validate
+//@   props C16 C07 C10
+//@   requires op != nil
+//@   modifies dag.baseChecked, dag.baseCheckedType, dag.baseCheckedOK
+//@   opt trusted_frame
+//@   ensures [accepted-comment-is-well-formed] result == nil ==> dag.baseChecked == op && dag.baseCheckedType == AddCommentOp && dag.baseCheckedOK && text.safeFrom(op.Message, 0)
+//@ func (*EditCommentOperation).Validate
+//@   props C16 C07 C10
+//@   requires op != nil
+//@   modifies dag.baseChecked, dag.baseCheckedType, dag.baseCheckedOK
+//@   opt trusted_frame
+//@   ensures [accepted-edit-is-well-formed] result == nil ==> dag.baseChecked == op && dag.baseCheckedType == EditCommentOp && dag.baseCheckedOK && text.safeFrom(op.Message, 0)
+//@ func (*SetTitleOperation).Validate
+//@   props C16 C07 C10
+//@   requires op != nil
+//@   modifies dag.baseChecked, dag.baseCheckedType, dag.baseCheckedOK
+//@   opt trusted_frame
+//@   ensures [accepted-title-is-well-formed] result == nil ==> dag.baseChecked == op && dag.baseCheckedType == SetTitleOp && dag.baseCheckedOK && !text.Empty(op.Title) && text.oneLineFrom(op.Title, 0) && text.oneLineFrom(op.Was, 0)
+//@ func (*SetStatusOperation).Validate
+//@   props C16 C07 C10
+//@   requires op != nil
+//@   modifies dag.baseChecked, dag.baseCheckedType, dag.baseCheckedOK
+//@   opt trusted_frame
+//@   ensures [accepted-status-is-well-formed] result == nil ==> dag.baseChecked == op && dag.baseCheckedType == SetStatusOp && dag.baseCheckedOK && (op.Status == common.OpenStatus || op.Status == common.ClosedStatus)
+//@ func (*LabelChangeOperation).Validate
+//@   props C16 C07 C10
+//@   requires op != nil
+//@   modifies dag.baseChecked, dag.baseCheckedType, dag.baseCheckedOK
+//@   opt trusted_frame
+//@   ensures [accepted-label-change-is-well-formed] result == nil ==> dag.baseChecked == op && dag.baseCheckedType == LabelChangeOp && dag.baseCheckedOK && len(op.Added) + len(op.Removed) > 0 && (forall k int :: { op.Added[k] } 0 <= k && k < len(op.Added) ==> !text.Empty(string(op.Added[k])) && text.oneLineFrom(string(op.Added[k]), 0)) && (forall k int :: { op.Removed[k] } 0 <= k && k < len(op.Removed) ==> !text.Empty(string(op.Removed[k])) && text.oneLineFrom(string(op.Removed[k]), 0))
+//@   loop 1
+//@     invariant forall k int :: { op.Added[k] } 0 <= k && k <= rangeindex ==> !text.Empty(string(op.Added[k])) && text.oneLineFrom(string(op.Added[k]), 0)
+//@   loop 2
+//@     invariant forall k int :: { op.Added[k] } 0 <= k && k < len(op.Added) ==> !text.Empty(string(op.Added[k])) && text.oneLineFrom(string(op.Added[k]), 0)
+//@     invariant forall k int :: { op.Removed[k] } 0 <= k && k <= rangeindex ==> !text.Empty(string(op.Removed[k])) && text.oneLineFrom(string(op.Removed[k]), 0)
